@@ -74,6 +74,13 @@ func condEdges(fn *an.Fn, classify func(cond ast.Expr) (bool, bool)) (pass, fail
 		for _, atom := range condAtoms(whole) {
 			m, onTrue := classify(atom)
 			if !m {
+				// ok := check(...); if !ok {…}: a boolean local with a single definition reads as
+				// the expression that defines it
+				if d := inlineLocal(fn, atom); d != atom {
+					m, onTrue = classify(an.Unparen(d))
+				}
+			}
+			if !m {
 				continue
 			}
 			matchedHere := false
@@ -374,4 +381,98 @@ func exactGuard(fn *an.Fn, p an.Point, allowed func(atom ast.Expr) bool) (bool, 
 		}
 	}
 	return true, ""
+}
+
+// inlineLocal replaces a local identifier that has exactly one definition in fn (and is
+// never re-assigned, incremented or address-taken) by its defining expression, repeatedly:
+// a sub-expression hoisted into a local reads like the expression it names.
+func inlineLocal(fn *an.Fn, e ast.Expr) ast.Expr {
+	for depth := 0; depth < 4; depth++ {
+		id, ok := an.Unparen(e).(*ast.Ident)
+		if !ok {
+			return e
+		}
+		info := fn.Info
+		o := objOf(info, id)
+		if _, isVar := o.(*types.Var); !isVar {
+			return e
+		}
+		var def ast.Expr
+		n := 0
+		an.Inner(fn.Body, func(x ast.Node) bool {
+			switch s := x.(type) {
+			case *ast.AssignStmt:
+				for i, l := range s.Lhs {
+					if li, ok := l.(*ast.Ident); ok && objOf(info, li) == o {
+						n++
+						if len(s.Rhs) == len(s.Lhs) && (s.Tok == token.DEFINE || s.Tok == token.ASSIGN) {
+							def = s.Rhs[i]
+						} else {
+							n++ // multi-value or compound assignment: not a plain definition
+						}
+					}
+				}
+			case *ast.ValueSpec:
+				for i, nm := range s.Names {
+					if objOf(info, nm) == o {
+						n++
+						if i < len(s.Values) {
+							def = s.Values[i]
+						} else {
+							n++
+						}
+					}
+				}
+			case *ast.IncDecStmt:
+				if li, ok := an.Unparen(s.X).(*ast.Ident); ok && objOf(info, li) == o {
+					n += 2
+				}
+			case *ast.UnaryExpr:
+				if s.Op == token.AND {
+					if li, ok := an.Unparen(s.X).(*ast.Ident); ok && objOf(info, li) == o {
+						n += 2
+					}
+				}
+			case *ast.RangeStmt:
+				for _, kv := range []ast.Expr{s.Key, s.Value} {
+					if li, ok := kv.(*ast.Ident); ok && objOf(info, li) == o {
+						n += 2
+					}
+				}
+			}
+			return true
+		})
+		if n != 1 || def == nil {
+			return e
+		}
+		e = def
+	}
+	return e
+}
+
+// mentionsThroughLocals: does e mention obj, directly or through single-definition locals
+// (entry := elem.Value.(*T); return entry.state)?
+func mentionsThroughLocals(fn *an.Fn, e ast.Node, obj types.Object, depth int) bool {
+	if e == nil || depth > 4 {
+		return false
+	}
+	found := false
+	ast.Inspect(e, func(n ast.Node) bool {
+		if found {
+			return false
+		}
+		id, ok := n.(*ast.Ident)
+		if !ok {
+			return true
+		}
+		if objOf(fn.Info, id) == obj {
+			found = true
+			return false
+		}
+		if d := inlineLocal(fn, id); d != ast.Expr(id) && mentionsThroughLocals(fn, d, obj, depth+1) {
+			found = true
+		}
+		return true
+	})
+	return found
 }
